@@ -20,36 +20,36 @@ import (
 	"strings"
 )
 
-type sharedField struct {
+type locksSharedField struct {
 	owner string // receiver type
 	field string
 }
 
-var sharedFields = []sharedField{
+var locksSharedFields = []locksSharedField{
 	{"NtfnsHandler", "mempool"}, {"NtfnsHandler", "bestBlock"}, {"NtfnsHandler", "expiredMempool"}, {"NtfnsHandler", "taskChan"},
 	{"KeystoreManager", "managedKeystores"}, {"KeystoreManager", "currentKeystore"},
 	{"AddrManager", "addrs"}, {"AddrManager", "index"}, {"AddrManager", "branchInfo"}, {"AddrManager", "unlocked"},
 	{"WalletManager", "usedCache"},
 }
 
-type lockFn struct {
+type locksFn struct {
 	pkg, file, recv, name string
 	decl                   *ast.FuncDecl
 	calls                  map[string]bool // callee simple names
 	roles                  map[string]bool
-	callSites              []callSite
-	evs                    []lockEvent
+	callSites              []locksCallSite
+	evs                    []locksEvent
 	entry                  map[string]string // mutex -> mode, held at entry by every caller (must)
 	entryTop               bool              // not yet constrained (fixpoint start)
 	isRoot                 bool
 }
 
-type callSite struct {
+type locksCallSite struct {
 	callee string
 	pos    token.Pos
 }
 
-func heldBefore(evs []lockEvent, p token.Pos) map[string]string {
+func locksHeldBefore(evs []locksEvent, p token.Pos) map[string]string {
 	state := map[string]string{}
 	for _, e := range evs {
 		if e.pos >= p {
@@ -67,7 +67,7 @@ func heldBefore(evs []lockEvent, p token.Pos) map[string]string {
 	return state
 }
 
-func meetLocks(a, b map[string]string) map[string]string {
+func locksMeet(a, b map[string]string) map[string]string {
 	out := map[string]string{}
 	for m, ka := range a {
 		if kb, ok := b[m]; ok {
@@ -81,7 +81,7 @@ func meetLocks(a, b map[string]string) map[string]string {
 	return out
 }
 
-func sameLocks(a, b map[string]string) bool {
+func locksSame(a, b map[string]string) bool {
 	if len(a) != len(b) {
 		return false
 	}
@@ -93,15 +93,15 @@ func sameLocks(a, b map[string]string) bool {
 	return true
 }
 
-func (f *lockFn) key() string { return f.pkg + "." + f.recv + "." + f.name }
+func (f *locksFn) key() string { return f.pkg + "." + f.recv + "." + f.name }
 
-type lockEvent struct {
+type locksEvent struct {
 	pos   token.Pos
 	mutex string
 	kind  string // Lock RLock Unlock RUnlock
 }
 
-type accessRow struct {
+type locksAccessRow struct {
 	field, site, fn string
 	write            bool
 	locks            []string // "km.mu:W" / "w.mu:R"
@@ -109,7 +109,7 @@ type accessRow struct {
 	window           bool
 }
 
-func recvTypeName(fd *ast.FuncDecl) string {
+func locksRecvTypeName(fd *ast.FuncDecl) string {
 	if fd.Recv == nil || len(fd.Recv.List) != 1 {
 		return ""
 	}
@@ -123,15 +123,15 @@ func recvTypeName(fd *ast.FuncDecl) string {
 	return ""
 }
 
-func recvVarName(fd *ast.FuncDecl) string {
+func locksRecvVarName(fd *ast.FuncDecl) string {
 	if fd.Recv == nil || len(fd.Recv.List) != 1 || len(fd.Recv.List[0].Names) != 1 {
 		return ""
 	}
 	return fd.Recv.List[0].Names[0].Name
 }
 
-// mutexCanon names a mutex by the type owning it, so that km.mu in one method and k.mu in another agree.
-func mutexCanon(c *Ctx, e ast.Expr, fn *lockFn, typeOfVar map[string]string) string {
+// locksMutexCanon names a mutex by the type owning it, so that km.mu in one method and k.mu in another agree.
+func locksMutexCanon(c *Ctx, e ast.Expr, fn *locksFn, typeOfVar map[string]string) string {
 	s := c.Src(e)
 	if i := strings.LastIndex(s, "."); i >= 0 {
 		base, f := s[:i], s[i+1:]
@@ -159,8 +159,8 @@ func mutexCanon(c *Ctx, e ast.Expr, fn *lockFn, typeOfVar map[string]string) str
 func init() {
 	register(func(c *Ctx) {
 		pkgs := map[string]string{"masswallet": "masswallet", "keystore": "masswallet/keystore", "txmgr": "masswallet/txmgr"}
-		var fns []*lockFn
-		byName := map[string][]*lockFn{}
+		var fns []*locksFn
+		byName := map[string][]*locksFn{}
 		var pkgNames []string
 		for p := range pkgs {
 			pkgNames = append(pkgNames, p)
@@ -189,10 +189,10 @@ func init() {
 					if !ok || fd.Body == nil {
 						continue
 					}
-					lf := &lockFn{pkg: p, file: rel, recv: recvTypeName(fd), name: fd.Name.Name, decl: fd, calls: map[string]bool{}, roles: map[string]bool{}}
+					lf := &locksFn{pkg: p, file: rel, recv: locksRecvTypeName(fd), name: fd.Name.Name, decl: fd, calls: map[string]bool{}, roles: map[string]bool{}}
 					ast.Inspect(fd.Body, func(x ast.Node) bool {
 						if ce, ok := x.(*ast.CallExpr); ok {
-							if nm := calleeName(c, ce.Fun); nm != "" {
+							if nm := protoCalleeName(c, ce.Fun); nm != "" {
 								lf.calls[nm] = true
 							}
 						}
@@ -208,9 +208,9 @@ func init() {
 			}
 		}
 		// roots
-		mark := func(root *lockFn, role string) {
-			var walk func(f *lockFn)
-			walk = func(f *lockFn) {
+		mark := func(root *locksFn, role string) {
+			var walk func(f *locksFn)
+			walk = func(f *locksFn) {
 				if f.roles[role] {
 					return
 				}
@@ -247,10 +247,10 @@ func init() {
 			}
 		}
 		// phase 1: per function, lock events / call sites / suspend-resume positions in source order
-		typeVars := func(f *lockFn) map[string]string {
+		typeVars := func(f *locksFn) map[string]string {
 			fd := f.decl
 			typeOfVar := map[string]string{}
-			if rv := recvVarName(fd); rv != "" {
+			if rv := locksRecvVarName(fd); rv != "" {
 				typeOfVar[rv] = f.recv
 			}
 			if fd.Type.Params != nil {
@@ -270,8 +270,8 @@ func init() {
 			}
 			return typeOfVar
 		}
-		susOf := map[*lockFn][]token.Pos{}
-		resOf := map[*lockFn][]token.Pos{}
+		susOf := map[*locksFn][]token.Pos{}
+		resOf := map[*locksFn][]token.Pos{}
 		for _, f := range fns {
 			f := f
 			typeOfVar := typeVars(f)
@@ -285,16 +285,16 @@ func init() {
 						inspect(y.Call, true)
 						return false
 					case *ast.CallExpr:
-						if nm := calleeName(c, y.Fun); nm != "" {
-							f.callSites = append(f.callSites, callSite{nm, y.Pos()})
+						if nm := protoCalleeName(c, y.Fun); nm != "" {
+							f.callSites = append(f.callSites, locksCallSite{nm, y.Pos()})
 						}
 						if se, ok := y.Fun.(*ast.SelectorExpr); ok {
 							switch se.Sel.Name {
 							case "Lock", "RLock":
-								f.evs = append(f.evs, lockEvent{y.Pos(), mutexCanon(c, se.X, f, typeOfVar), se.Sel.Name})
+								f.evs = append(f.evs, locksEvent{y.Pos(), locksMutexCanon(c, se.X, f, typeOfVar), se.Sel.Name})
 							case "Unlock", "RUnlock":
 								if !deferred {
-									f.evs = append(f.evs, lockEvent{y.Pos(), mutexCanon(c, se.X, f, typeOfVar), se.Sel.Name})
+									f.evs = append(f.evs, locksEvent{y.Pos(), locksMutexCanon(c, se.X, f, typeOfVar), se.Sel.Name})
 								}
 							case "suspend":
 								susOf[f] = append(susOf[f], y.Pos())
@@ -315,13 +315,13 @@ func init() {
 		}
 		// phase 2: locks held at entry by EVERY caller (name-based call sites; greatest fixpoint)
 		callers := map[string][]struct {
-			f   *lockFn
+			f   *locksFn
 			pos token.Pos
 		}{}
 		for _, f := range fns {
 			for _, cs := range f.callSites {
 				callers[cs.callee] = append(callers[cs.callee], struct {
-					f   *lockFn
+					f   *locksFn
 					pos token.Pos
 				}{f, cs.pos})
 			}
@@ -343,7 +343,7 @@ func init() {
 					if cs.f.entryTop {
 						continue // unconstrained caller: contributes nothing yet
 					}
-					held := heldBefore(cs.f.evs, cs.pos)
+					held := locksHeldBefore(cs.f.evs, cs.pos)
 					for m, k := range cs.f.entry {
 						if _, ok := held[m]; !ok {
 							held[m] = k
@@ -352,25 +352,25 @@ func init() {
 					if top {
 						acc, top = held, false
 					} else {
-						acc = meetLocks(acc, held)
+						acc = locksMeet(acc, held)
 					}
 				}
 				if top {
 					continue
 				}
-				if f.entryTop || !sameLocks(acc, f.entry) {
+				if f.entryTop || !locksSame(acc, f.entry) {
 					f.entry, f.entryTop, changed = acc, false, true
 				}
 			}
 		}
 		// phase 3: rows
-		var rows []accessRow
+		var rows []locksAccessRow
 		for _, f := range fns {
 			fd := f.decl
 			typeOfVar := typeVars(f)
 			susPos, resPos := susOf[f], resOf[f]
 			heldAt := func(p token.Pos) []string {
-				state := heldBefore(f.evs, p)
+				state := locksHeldBefore(f.evs, p)
 				if !f.entryTop {
 					for m, k := range f.entry {
 						if _, ok := state[m]; !ok {
@@ -448,7 +448,7 @@ func init() {
 				if !ok {
 					return true
 				}
-				for _, sf := range sharedFields {
+				for _, sf := range locksSharedFields {
 					if se.Sel.Name != sf.field {
 						continue
 					}
@@ -478,7 +478,7 @@ func init() {
 						roles = append(roles, r)
 					}
 					sort.Strings(roles)
-					rows = append(rows, accessRow{
+					rows = append(rows, locksAccessRow{
 						field: sf.owner + "." + sf.field,
 						site:  fmt.Sprintf("%s:%d", f.file, pos.Line),
 						fn:    f.recv + "." + f.name,
@@ -513,7 +513,7 @@ func init() {
 				strings.Join(lk, ", "), strings.Join(rl, ", "), r.window))
 		}
 		l.Raw("def table : List Access := [\n" + strings.Join(sb, ",\n") + "]")
-		writeLeanWithImport(c, l, "Locks.lean", "MW.Model.Locks")
+		protoWriteLeanWithImport(c, l, "Locks.lean", "MW.Model.Locks")
 		c.check("locks.table", len(rows) > 40, fmt.Sprintf("access table suspiciously small (%d rows)", len(rows)))
 	})
 }
